@@ -1,5 +1,9 @@
 import TnVerif.Props.C06
 import TnVerif.Props.C10
+import TnVerif.Lemmas.Sobol
+import TnVerif.Lemmas.SobolOpen
+import TnVerif.Props.C16
+import TnVerif.Lemmas.PartialSet
 /-!
 # C09 — Sobol indices equal their variance-decomposition definition
 
@@ -174,5 +178,1202 @@ theorem second_moment (ws : List (Nat → R)) (ns : List Nat) (f : List Nat → 
   apply boxSum_congr; intro j; rw [sq]
 
 end parseval
+
+/-! ## the whole routine `tn.sobol` (extension): model `Tensor.sobol` of `Model/Sobol.lean` -/
+/-- `a[(0,) * N]` on a well-formed tensor without empty modes: the indexing state machine never fails and returns the
+    scalar entry at the all-zero index -/
+theorem getitem_zero [CommSemiring R] (u : Tensor R) (hu : u.WF) (hpos : ∀ n ∈ u.shape, 0 < n) :
+    u.getitem (squeezeKey (allDims u)) = .ok (.inr (u.dense (List.replicate u.length 0))) := by
+  have hd : (allDims u).length = u.length := allDims_length u
+  have hall : (allDims u).all id = true := allDims_all u
+  have hp : processKey u.length (squeezeKey (allDims u)) = .ok (squeezeKey (allDims u)) := by
+    rw [← hd]; exact processKey_squeeze (allDims u)
+  have hsl : (allDims u).length = u.shape.length := by rw [shape_length]; exact hd
+  have hn : normKey (squeezeKey (allDims u)) u.shape = .ok (sqItems (allDims u) u.shape) := by
+    rw [allDims_eq]; exact sobol_normKey_zero u.shape hpos
+  obtain ⟨sobolLastRR, hfin⟩ := getitem_unfold u _ _ _ hp hn
+  obtain ⟨r, hr1, hr2, hr3⟩ := goKey_sq (R := R) sobolLastRR (allDims u) u false Option.none hd
+  rw [← groupKey_sq] at hr1
+  have hg := hfin r hr1
+  have hkl := keepShape_length (allDims u) u.shape hsl
+  have hks := (keepShape_eq_nil (allDims u) u.shape hsl).mpr hall
+  have hk : r.1 = [] := by rw [hks] at hr2; simpa [Tensor.shape] using hr2
+  have hkc : keepCount (allDims u) = 0 := by rw [← hkl, hks]; rfl
+  have hne : allDims u ≠ [] := by
+    intro h
+    cases u with
+    | nil => simp [Tensor.WF] at hu
+    | cons _ _ => simp [allDims] at h
+  obtain ⟨l, q⟩ := r
+  simp only at hk; subst hk
+  have hq := hr3 rfl (Or.inr hne)
+  cases q with
+  | none => simp at hq
+  | some q =>
+    simp only [finishKey] at hg
+    have hf : fits (groupKey (sqItems (allDims u) u.shape)) u.length 0 := by
+      rw [groupKey_sq, ← hd, ← hkc]; exact fits_sq (allDims u) u.shape hsl
+    have hx := C03.getitem_scalar u hu _ _ _ hp hn q.total hg hf
+    rw [hg, hx, groupKey_sq, srcIdx_sq (allDims u) u.shape [] hsl (by simp [hkc]), fillIdx_all (allDims u) hall, hd]
+
+
+section pipeline
+variable [Field R]
+
+/-- the normalised marginal of every mode as `sobol` uses it: `m / torch.sum(m)` with `m` the given vector, or the
+    vector of ones for `None` (anova.py:136-140) -/
+def margsN : List Nat → List (Option (Nat → R)) → List (Nat → R)
+  | I :: Is, o :: os => normW I (sobolMargS o) :: margsN Is os
+  | _, _ => []
+
+theorem margsN_length : ∀ (ns : List Nat) (margs : List (Option (Nat → R))), margs.length = ns.length →
+    (margsN ns margs).length = ns.length := by
+  intro ns
+  induction ns with
+  | nil => intro margs _; cases margs <;> rfl
+  | cons n ns ih =>
+    intro margs h
+    cases margs with
+    | nil => simp at h
+    | cons o os => simp [margsN, ih os (by simpa using h)]
+
+/-- the operator list `anova_decomposition` applies, in terms of the normalised marginals (`None` ↦ uniform) -/
+theorem anovaOpt_maps (t : Tensor R) : ∀ (margs : List (Option (Nat → R))), margs.length = t.length →
+    List.zipWith (fun w (m : TMode R) => some (m.n + 1, anovaL m.n (normW m.n w)))
+        (List.zipWith (fun (m : TMode R) o => sobolMargA m.n o) t margs) t
+      = anovaMaps (margsN t.shape margs) t.shape := by
+  induction t with
+  | nil => intro margs _; cases margs <;> rfl
+  | cons m ms ih =>
+    intro margs h
+    cases margs with
+    | nil => simp at h
+    | cons o os =>
+      simp only [List.zipWith_cons_cons, Tensor.shape, List.map_cons, margsN, anovaMaps, sobol_normW_opt, List.cons.injEq,
+        true_and]
+      exact ih os (by simpa using h)
+
+theorem sobolWeight_eq (a : Tensor R) : ∀ (ns : List Nat) (margs : List (Option (Nat → R))),
+    Tensor.sobolWeight margs ns a = sobolWrowsAll (margsN ns margs) a := by
+  induction a with
+  | nil => intro ns margs; cases ns <;> cases margs <;> rfl
+  | cons m ms ih =>
+    intro ns margs
+    cases ns with
+    | nil => cases margs <;> rfl
+    | cons n ns =>
+      cases margs with
+      | nil => rfl
+      | cons o os => simp only [Tensor.sobolWeight, margsN, sobolWrowsAll, ih]
+
+theorem sobolExtW_eq : ∀ (ws : List (Nat → R)) (j : List Nat), sobolExtW ws j = extW ws j := by
+  intro ws
+  induction ws with
+  | nil => intro j; rfl
+  | cons w ws ih =>
+    intro j
+    cases j with
+    | nil => rfl
+    | cons i is => simp only [sobolExtW, extW, sobolRowW, ih]
+
+/-- the extended ANOVA array of the dense array `f` under the normalised marginals `ws` -/
+abbrev anovaArr (ws : List (Nat → R)) (ns : List Nat) (f : List Nat → R) : List Nat → R :=
+  applyMaps (anovaMaps ws ns) ns f
+
+/-- **the tensor `a` of `sobol`** (anova.py:118-133): with the kernel contract `sgn · ρ^N = a₀[0,…,0]` (the weighted mean,
+    `anova_mean`) the routine does not fail, and `a` is a well-formed tensor on the extended box whose entries are
+    the ANOVA terms, the empty term (all-zero index) replaced by 0. -/
+theorem sobolA_spec (t : Tensor R) (margs : List (Option (Nat → R))) (ρ sgn : R) (ht : t.WF)
+    (hl : margs.length = t.length)
+    (hc : sgn * ρ ^ t.length = anovaArr (margsN t.shape margs) t.shape t.dense (List.replicate t.length 0)) :
+    ∃ a, t.sobolA margs ρ sgn = .ok a ∧ a.WF ∧ a.shape = t.shape.map (· + 1) ∧
+      (∀ j, j.length = t.length → a.dense j =
+        if j = List.replicate t.length 0 then 0 else anovaArr (margsN t.shape margs) t.shape t.dense j) ∧
+      sobolLastRR a = 1 := by
+  have hzl : (List.zipWith (fun (m : TMode R) o => sobolMargA m.n o) t margs).length = t.length := by simp [hl]
+  have ha0w : (t.sobolAnovaOpt margs).WF := sobol_WF_anova t _ hzl ht
+  have ha0s : (t.sobolAnovaOpt margs).shape = t.shape.map (· + 1) := C10.anova_shape t _ hzl
+  have ha0l : (t.sobolAnovaOpt margs).length = t.length := by
+    have := congrArg List.length ha0s; simpa [Tensor.shape] using this
+  have hpos : ∀ n ∈ (t.sobolAnovaOpt margs).shape, 0 < n := by
+    rw [ha0s]; intro n hn; simp only [List.mem_map] at hn; obtain ⟨k, _, rfl⟩ := hn; omega
+  have hd0 : ∀ j, j.length = t.length → (t.sobolAnovaOpt margs).dense j = anovaArr (margsN t.shape margs) t.shape t.dense j := by
+    intro j hj
+    unfold Tensor.sobolAnovaOpt
+    rw [C10.anova_dense t _ j hzl hj, anovaOpt_maps t margs hl]
+  have hne : (t.sobolAnovaOpt margs).shape ≠ [] := by
+    intro h
+    cases t with
+    | nil => simp [Tensor.WF] at ht
+    | cons _ _ => rw [ha0s] at h; simp [Tensor.shape] at h
+  have hEw := sobol_WF_emptyT (R := R) _ hne
+  have hEs := sobol_shape_emptyT (R := R) (t.sobolAnovaOpt margs).shape
+  have hEl : (sobolEmptyT (R := R) (t.sobolAnovaOpt margs).shape).length = t.length := by
+    have := congrArg List.length hEs; rw [shape_length, shape_length, ha0l] at this; exact this
+  obtain ⟨hXw, hXs⟩ := C02.scalarMul_wf_shape ρ sgn _ hEw
+  refine ⟨(t.sobolAnovaOpt margs).sub ((sobolEmptyT (t.sobolAnovaOpt margs).shape).scalarMul ρ sgn), ?_, ?_, ?_, ?_, ?_⟩
+  · unfold Tensor.sobolA
+    simp only [sobol_memo_eq]
+    rw [getitem_zero _ ha0w hpos]
+  · unfold Tensor.sub Tensor.neg
+    exact (C02.add_wf_shape _ _ ha0w (C02.scalarMul_wf_shape _ _ _ hXw).1
+      (by rw [(C02.scalarMul_wf_shape _ _ _ hXw).2, hXs, hEs])).1
+  · unfold Tensor.sub Tensor.neg
+    rw [(C02.add_wf_shape _ _ ha0w (C02.scalarMul_wf_shape _ _ _ hXw).1
+      (by rw [(C02.scalarMul_wf_shape _ _ _ hXw).2, hXs, hEs])).2, ha0s]
+  · intro j hj
+    rw [C02.sub_dense _ _ ha0w hXw (by rw [hXs, hEs]) j (by rw [hj, ha0l]),
+      C02.scalarMul_dense ρ sgn _ _ hEw (by rw [hEl]) j (by rw [hj, hEl]),
+      sobol_dense_emptyT _ j hne (by rw [shape_length, ha0l, hj]), sobolZeroInd_eq, hd0 j hj, hj]
+    by_cases h : j = List.replicate t.length 0
+    · rw [if_pos h, if_pos h, h, ← hc]; ring
+    · rw [if_neg h, if_neg h]; ring
+  · unfold Tensor.sub Tensor.neg
+    have hne' : t.sobolAnovaOpt margs ≠ [] := by
+      intro h; rw [h] at ha0w; simp [Tensor.WF] at ha0w
+    obtain ⟨m, h1, h2⟩ := sobol_add_last_rr (t.sobolAnovaOpt margs)
+      (((sobolEmptyT (t.sobolAnovaOpt margs).shape).scalarMul ρ sgn).scalarMul 1 (-1))
+      (by rw [(C02.scalarMul_wf_shape _ _ _ hXw).2, hXs, hEs]) hne'
+      (sobol_scalarMul_plain _ _ _ (sobol_scalarMul_plain _ _ _ (sobol_emptyT_plain _)))
+    unfold sobolLastRR; rw [h1]; exact h2
+
+end pipeline
+
+section sobolmain
+variable [Field R]
+
+/-- the contribution of the extended index `j` to the variance: `W(j) · a(j)²` — the weight of the index under the
+    product of the marginals times the squared ANOVA term entry; the empty tuple (all-zero index, the squared mean)
+    is excluded.  Summed over the indices with a given support it is the variance of that ANOVA term
+    (`varcomp`, `varcomp_eq_term_variance`); summed over everything it is the total variance (`total_variance`). -/
+def varTerm (ws : List (Nat → R)) (ns : List Nat) (f : List Nat → R) (j : List Nat) : R :=
+  if j = List.replicate ns.length 0 then 0 else extW ws j * anovaArr ws ns f j ^ 2
+
+/-- numerator of the index: the mask-weighted sum of the variance contributions over the extended box -/
+def sobolNum (ws : List (Nat → R)) (ns : List Nat) (f : List Nat → R) (m : List Nat → R) : R :=
+  boxSum (ns.map (· + 1)) (fun j => varTerm ws ns f j * m j)
+
+/-- denominator of the index: the sum of all variance contributions — the total variance (`total_variance`) -/
+def sobolDen (ws : List (Nat → R)) (ns : List Nat) (f : List Nat → R) : R :=
+  boxSum (ns.map (· + 1)) (varTerm ws ns f)
+
+/-- **`tn.sobol` equals its variance-decomposition definition, on the extended index box** (closed masks; any tensor, any
+    format mix, any marginals incl. `None`, any mask of any format and any number of symbols per mode): the routine does
+    not fail and returns
+    `sobolNum / sobolDen = Σ_j W(j)·a(j)²·mask(clamp j) / Σ_j W(j)·a(j)²` (both sums over the extended box `{0..I_n}` per
+    mode without the all-zero index), resp. the numerator alone for `normalize=False`.  `mask` is read at the clamped index
+    (`0 ↦ 0`, `i ≥ 1 ↦ 1` for a 2-symbol mask: "variable n is in the tuple").
+    Kernel contract: `sgn · ρ^N` is the weighted mean of the tensor (what `a[(0,)*N]` holds, `anova_mean`). -/
+theorem sobol_eq (t mask : Tensor R) (margs : List (Option (Nat → R))) (normalize : Bool) (ρ sgn ρ2 sgn2 : R)
+    (ht : t.WF) (hk : mask.WF) (hl : margs.length = t.length) (hkl : mask.length = t.length)
+    (hclosed : mask.sobolOpenBond = false)
+    (hc : sgn * ρ ^ t.length = boxSum t.shape (fun x => prodW (margsN t.shape margs) x * t.dense x)) :
+    t.sobol mask margs normalize ρ sgn ρ2 sgn2 = .ok (.inr (
+      if normalize then
+        sobolNum (margsN t.shape margs) t.shape t.dense (fun j => mask.dense (sobolClampL mask.shape j))
+          / sobolDen (margsN t.shape margs) t.shape t.dense
+      else sobolNum (margsN t.shape margs) t.shape t.dense (fun j => mask.dense (sobolClampL mask.shape j)))) := by
+  have hwl : (margsN t.shape margs).length = t.shape.length := margsN_length _ _ (by rw [shape_length]; exact hl)
+  have hc' : sgn * ρ ^ t.length = anovaArr (margsN t.shape margs) t.shape t.dense (List.replicate t.length 0) := by
+    rw [hc, ← shape_length t]; exact (anova_mean _ _ _ hwl).symm
+  obtain ⟨a, ha, haw, has, had, _⟩ := sobolA_spec t margs ρ sgn ht hl hc'
+  have hal : a.length = t.length := by
+    have := congrArg List.length has; simpa [Tensor.shape] using this
+  have hwl' : (margsN t.shape margs).length = a.length := by rw [hwl, shape_length, hal]
+  have hamw := sobol_WF_wrowsAll a _ hwl' haw
+  have hams := sobol_shape_wrowsAll a _ hwl'
+  have hml : a.shape.length = mask.length := by rw [shape_length, hal, hkl]
+  have hmw := sobol_WF_maskSel mask a.shape hml hk
+  have hms := sobol_shape_maskSel mask a.shape hml
+  obtain ⟨hmmw, hmms⟩ := C02.mul_wf_shape (sobolWrowsAll (margsN t.shape margs) a) (Tensor.sobolMaskSel a.shape mask) hamw hmw
+    (by rw [hams, hms])
+  have hnum : a.sobolDotA ((sobolWrowsAll (margsN t.shape margs) a).mul (Tensor.sobolMaskSel a.shape mask)) =
+      boxSum (t.shape.map (· + 1)) (fun j => varTerm (margsN t.shape margs) t.shape t.dense j * mask.dense (sobolClampL mask.shape j)) := by
+    rw [sobol_dotA_eq a _ haw hmmw (by rw [hmms, hams]),
+      sobol_numerator a _ _ haw hamw hmw hams.symm (by rw [hams, hms]), has]
+    apply boxSum_congr_in; intro j hj
+    have hjl : j.length = t.length := by
+      have := inShape_length j _ hj; simpa [shape_length] using this
+    rw [sobol_dense_wrowsAll a _ j hwl' (by rw [hjl, hal]), sobol_dense_maskSel mask _ j (by rw [← has]; exact hml) (by rw [hjl, hkl]),
+      had j hjl, sobolExtW_eq]
+    unfold varTerm
+    rw [shape_length]
+    by_cases h : j = List.replicate t.length 0
+    · rw [if_pos h, if_pos h]; ring
+    · rw [if_neg h, if_neg h]; ring
+  have hden : a.sobolDotA (sobolWrowsAll (margsN t.shape margs) a) =
+      boxSum (t.shape.map (· + 1)) (varTerm (margsN t.shape margs) t.shape t.dense) := by
+    rw [sobol_dotA_eq a _ haw hamw hams.symm, sobol_denominator a _ haw hamw hams.symm, has]
+    apply boxSum_congr_in; intro j hj
+    have hjl : j.length = t.length := by
+      have := inShape_length j _ hj; simpa [shape_length] using this
+    rw [sobol_dense_wrowsAll a _ j hwl' (by rw [hjl, hal]), had j hjl, sobolExtW_eq]
+    unfold varTerm
+    rw [shape_length]
+    by_cases h : j = List.replicate t.length 0
+    · rw [if_pos h, if_pos h]; ring
+    · rw [if_neg h, if_neg h]; ring
+  unfold Tensor.sobol
+  rw [ha]
+  simp only [hclosed, sobol_memo_eq, Tensor.clone, Tensor.sobolMaskBy, sobolWeight_eq, hams, hnum, hden]
+  cases normalize <;> rfl
+
+end sobolmain
+
+/-! ### the denominator is the variance; order properties -/
+section variance
+variable [Field R]
+
+theorem Normalized_length : ∀ (ws : List (Nat → R)) (ns : List Nat), Normalized ws ns → ws.length = ns.length := by
+  intro ws
+  induction ws with
+  | nil => intro ns h; cases ns with
+    | nil => rfl
+    | cons _ _ => simp [Normalized] at h
+  | cons w ws ih => intro ns h; cases ns with
+    | nil => simp [Normalized] at h
+    | cons n ns => simp [ih ns h.2]
+
+theorem extW_zero : ∀ (ws : List (Nat → R)) (k : Nat), extW ws (List.replicate k 0) = 1 := by
+  intro ws
+  induction ws with
+  | nil => intro k; cases k <;> rfl
+  | cons w ws ih => intro k; cases k with
+    | zero => rfl
+    | succ k => simp [List.replicate_succ, extW, ih k]
+
+/-- **the denominator of `sobol` is the variance** of the tensor under the product of the (normalised) marginals:
+    `Σ_{j ≠ 0} W(j)·a(j)² = E[f²] − (E f)²` -/
+theorem total_variance (ws : List (Nat → R)) (ns : List Nat) (f : List Nat → R) (h : Normalized ws ns) :
+    sobolDen ws ns f = boxSum ns (fun x => prodW ws x * f x ^ 2) - (boxSum ns (fun x => prodW ws x * f x)) ^ 2 := by
+  unfold sobolDen varTerm
+  rw [sobol_boxSum_remove _ _ (fun j => extW ws j * anovaArr ws ns f j ^ 2) (sobol_inShape_zero ns),
+    second_moment ws ns f h, extW_zero, one_mul]
+  unfold anovaArr
+  rw [anova_mean ws ns f (Normalized_length ws ns h)]
+
+/-- the marginals' sums do not vanish (what makes `m / torch.sum(m)` a probability vector); for `None` this says that
+    the mode size is not zero in the field -/
+def MargsSumNe : List Nat → List (Option (Nat → R)) → Prop
+  | I :: Is, o :: os => sumTo I (sobolMargS o) ≠ 0 ∧ MargsSumNe Is os
+  | _, _ => True
+
+/-- the normalised marginals `m / torch.sum(m)` sum to 1 on every mode, provided no marginal sums to zero -/
+theorem margsN_normalized : ∀ (ns : List Nat) (margs : List (Option (Nat → R))), margs.length = ns.length →
+    MargsSumNe ns margs → Normalized (margsN ns margs) ns := by
+  intro ns
+  induction ns with
+  | nil => intro margs hl _; cases margs with
+    | nil => trivial
+    | cons _ _ => simp at hl
+  | cons n ns ih =>
+    intro margs hl h
+    cases margs with
+    | nil => simp at hl
+    | cons o os => exact ⟨C10.normW_sum n _ h.1, ih os (by simpa using hl) h.2⟩
+
+end variance
+
+section ordered
+variable [Field R] [LinearOrder R] [IsStrictOrderedRing R]
+
+/-- weights that are non-negative inside their mode -/
+def NonnegOn : List (Nat → R) → List Nat → Prop
+  | w :: ws, n :: ns => (∀ i, i < n → 0 ≤ w i) ∧ NonnegOn ws ns
+  | _, _ => True
+
+/-- the given marginal vectors have no negative entry -/
+def MargsNonneg : List Nat → List (Option (Nat → R)) → Prop
+  | I :: Is, some w :: os => (∀ i, i < I → 0 ≤ w i) ∧ MargsNonneg Is os
+  | _ :: Is, Option.none :: os => MargsNonneg Is os
+  | _, _ => True
+
+theorem sumTo_nonneg' (n : Nat) (w : Nat → R) (h : ∀ i, i < n → 0 ≤ w i) : 0 ≤ sumTo n w := by
+  rw [sumTo_eq]; exact Finset.sum_nonneg (fun i hi => h i (Finset.mem_range.mp hi))
+
+/-- normalising non-negative marginals gives non-negative weights -/
+theorem margsN_nonneg : ∀ (ns : List Nat) (margs : List (Option (Nat → R))), MargsNonneg ns margs →
+    NonnegOn (margsN ns margs) ns := by
+  intro ns
+  induction ns with
+  | nil => intro margs _; cases margs <;> trivial
+  | cons n ns ih =>
+    intro margs h
+    cases margs with
+    | nil => trivial
+    | cons o os =>
+      cases o with
+      | none =>
+        refine ⟨fun i _ => ?_, ih os h⟩
+        simp only [normW, sobolMargS]
+        exact div_nonneg zero_le_one (sumTo_nonneg' n _ (fun _ _ => zero_le_one))
+      | some w =>
+        refine ⟨fun i hi => ?_, ih os h.2⟩
+        simp only [normW, sobolMargS]
+        exact div_nonneg (h.1 i hi) (sumTo_nonneg' n w h.1)
+
+theorem extW_nonneg : ∀ (ws : List (Nat → R)) (ns j : List Nat), NonnegOn ws ns → inShape j (ns.map (· + 1)) →
+    0 ≤ extW ws j := by
+  intro ws
+  induction ws with
+  | nil => intro ns j _ _; cases j <;> simp [extW]
+  | cons w ws ih =>
+    intro ns j hw hj
+    cases ns with
+    | nil => cases j with
+      | nil => simp [extW]
+      | cons _ _ => simp [inShape] at hj
+    | cons n ns =>
+      cases j with
+      | nil => simp [inShape] at hj
+      | cons i is =>
+        obtain ⟨hi, his⟩ := hj
+        simp only [extW]
+        apply mul_nonneg _ (ih ns is hw.2 his)
+        by_cases h0 : i = 0
+        · simp [h0]
+        · simp only [h0, if_false]
+          exact hw.1 (i - 1) (by have : i < n + 1 := hi; omega)
+
+/-- **every variance contribution is non-negative** (a weight times a square) -/
+theorem varTerm_nonneg (ws : List (Nat → R)) (ns : List Nat) (f : List Nat → R) (j : List Nat) (hw : NonnegOn ws ns)
+    (hj : inShape j (ns.map (· + 1))) : 0 ≤ varTerm ws ns f j := by
+  unfold varTerm
+  split
+  · exact le_refl 0
+  · exact mul_nonneg (extW_nonneg ws ns j hw hj) (sq_nonneg _)
+
+theorem sobolDen_nonneg (ws : List (Nat → R)) (ns : List Nat) (f : List Nat → R) (hw : NonnegOn ws ns) :
+    0 ≤ sobolDen ws ns f :=
+  sobol_boxSum_nonneg_in _ _ (fun j hj => varTerm_nonneg ws ns f j hw hj)
+
+/-- **monotonicity in the mask**: if `m₁ ≤ m₂` on the extended box then the index of `m₁` is at most the index of `m₂`
+    (closed ≤ total indices, total indices dominate the variance components they contain) -/
+theorem sobol_mono (ws : List (Nat → R)) (ns : List Nat) (f : List Nat → R) (m1 m2 : List Nat → R) (hw : NonnegOn ws ns)
+    (hm : ∀ j, inShape j (ns.map (· + 1)) → m1 j ≤ m2 j) :
+    sobolNum ws ns f m1 / sobolDen ws ns f ≤ sobolNum ws ns f m2 / sobolDen ws ns f := by
+  apply div_le_div_of_nonneg_right _ (sobolDen_nonneg ws ns f hw)
+  exact sobol_boxSum_le_in _ _ _ (fun j hj => mul_le_mul_of_nonneg_left (hm j hj) (varTerm_nonneg ws ns f j hw hj))
+
+/-- **indices of masks with values in `[0,1]` (in particular 0/1 masks) lie in `[0,1]`** when the total variance is
+    positive -/
+theorem sobol_mem_unit (ws : List (Nat → R)) (ns : List Nat) (f : List Nat → R) (m : List Nat → R) (hw : NonnegOn ws ns)
+    (hm : ∀ j, inShape j (ns.map (· + 1)) → 0 ≤ m j ∧ m j ≤ 1) (hD : 0 < sobolDen ws ns f) :
+    0 ≤ sobolNum ws ns f m / sobolDen ws ns f ∧ sobolNum ws ns f m / sobolDen ws ns f ≤ 1 := by
+  have h0 : 0 ≤ sobolNum ws ns f m :=
+    sobol_boxSum_nonneg_in _ _ (fun j hj => mul_nonneg (varTerm_nonneg ws ns f j hw hj) (hm j hj).1)
+  have h1 : sobolNum ws ns f m ≤ sobolDen ws ns f := by
+    apply sobol_boxSum_le_in; intro j hj
+    have := mul_le_mul_of_nonneg_left (hm j hj).2 (varTerm_nonneg ws ns f j hw hj)
+    simpa using this
+  exact ⟨div_nonneg h0 hD.le, (div_le_one hD).mpr h1⟩
+
+end ordered
+
+/-! ### variance components of the tuples of variables (masks over the 2-symbol box) -/
+section subsets
+variable [Field R]
+
+/-- **variance component of a tuple of variables** given by its 0/1 pattern `u` (1 = the variable belongs to the tuple):
+    the sum of the variance contributions of the extended indices with support `u`; it is the variance of the ANOVA
+    term of that tuple (`varcomp_eq_term_variance`) -/
+def varcomp (ws : List (Nat → R)) (ns : List Nat) (f : List Nat → R) (u : List Nat) : R :=
+  boxSum (ns.map (· + 1)) (fun j => if sobolSuppL j = u then varTerm ws ns f j else 0)
+
+/-- a mask that only looks at the support of the index (every mask over the 2-symbol box does): the numerator is
+    `Σ_u mask(u) · varcomp(u)` over the `2^N` tuples of variables -/
+theorem sobolNum_subsets (ws : List (Nat → R)) (ns : List Nat) (f : List Nat → R) (μ : List Nat → R) :
+    sobolNum ws ns f (fun j => μ (sobolSuppL j)) = boxSum (List.replicate ns.length 2) (fun u => μ u * varcomp ws ns f u) := by
+  unfold sobolNum varcomp
+  rw [← sobol_boxSum_fiber ns μ (varTerm ws ns f)]
+  apply boxSum_congr; intro j; ring
+
+/-- the total variance is the sum of the variance components of all tuples -/
+theorem sobolDen_subsets (ws : List (Nat → R)) (ns : List Nat) (f : List Nat → R) :
+    sobolDen ws ns f = boxSum (List.replicate ns.length 2) (varcomp ws ns f) := by
+  have := sobolNum_subsets ws ns f (fun _ => 1)
+  simp only [one_mul] at this
+  rw [← this]
+  unfold sobolDen sobolNum
+  apply boxSum_congr; intro j; ring
+
+theorem clampIdx_two (i : Nat) : sobolClampIdx 2 i = if i = 0 then 0 else 1 := by
+  unfold sobolClampIdx
+  by_cases h : 2 ≤ i
+  · have : ¬ i = 0 := by omega
+    simp [h, this]
+  · have : i = 0 ∨ i = 1 := by omega
+    rcases this with rfl | rfl <;> simp
+
+theorem clampL_two : ∀ (k : Nat) (j : List Nat), j.length = k → sobolClampL (List.replicate k 2) j = sobolSuppL j := by
+  intro k
+  induction k with
+  | zero => intro j h; cases j with
+    | nil => rfl
+    | cons _ _ => simp at h
+  | succ k ih =>
+    intro j h
+    cases j with
+    | nil => simp at h
+    | cons i is =>
+      simp only [List.replicate_succ, sobolClampL, sobolSuppL_cons, clampIdx_two, ih is (by simpa using h)]
+
+/-- **`tn.sobol` for masks over the 2-symbol box** (`tn.symbols`, `tn.only`, Boolean formulas, weight automata): the
+    index is the mask-weighted sum of the variance components of the tuples of variables divided by the sum of all
+    variance components, `Σ_u mask(u)·D_u / Σ_u D_u`, `u` over the `2^N` tuples (the empty tuple has `D_∅ = 0`) -/
+theorem sobol_eq_subsets (t mask : Tensor R) (margs : List (Option (Nat → R))) (normalize : Bool) (ρ sgn ρ2 sgn2 : R)
+    (ht : t.WF) (hk : mask.WF) (hl : margs.length = t.length) (hks : mask.shape = List.replicate t.length 2)
+    (hclosed : mask.sobolOpenBond = false)
+    (hc : sgn * ρ ^ t.length = boxSum t.shape (fun x => prodW (margsN t.shape margs) x * t.dense x)) :
+    t.sobol mask margs normalize ρ sgn ρ2 sgn2 = .ok (.inr (
+      if normalize then
+        boxSum (List.replicate t.length 2) (fun u => mask.dense u * varcomp (margsN t.shape margs) t.shape t.dense u)
+          / boxSum (List.replicate t.length 2) (varcomp (margsN t.shape margs) t.shape t.dense)
+      else boxSum (List.replicate t.length 2) (fun u => mask.dense u * varcomp (margsN t.shape margs) t.shape t.dense u))) := by
+  have hkl : mask.length = t.length := by
+    have := congrArg List.length hks; simpa [Tensor.shape] using this
+  rw [sobol_eq t mask margs normalize ρ sgn ρ2 sgn2 ht hk hl hkl hclosed hc]
+  have e : sobolNum (margsN t.shape margs) t.shape t.dense (fun j => mask.dense (sobolClampL mask.shape j))
+      = sobolNum (margsN t.shape margs) t.shape t.dense (fun j => mask.dense (sobolSuppL j)) := by
+    unfold sobolNum
+    apply boxSum_congr_in; intro j hj
+    have hjl : j.length = t.length := by
+      have := inShape_length j _ hj; simpa [shape_length] using this
+    simp only [hks, clampL_two t.length j hjl]
+  rw [e, sobolNum_subsets, sobolDen_subsets, shape_length]
+
+end subsets
+
+section termvar
+variable [Field R]
+
+/-- the extended index of the entry `x` of the ANOVA term of the tuple `u`: `x_n + 1` for the variables of the tuple,
+    `0` (integrated out) for the others -/
+def embedL : List Nat → List Nat → List Nat
+  | b :: u, x :: xs => (if b = 0 then 0 else x + 1) :: embedL u xs
+  | _, _ => []
+
+/-- change of variables: the weighted sum over the extended indices with support `u` is the expectation, under the
+    product of the marginals, of the function read at the embedded index -/
+theorem boxSum_support_eq : ∀ (ws : List (Nat → R)) (ns u : List Nat) (G : List Nat → R), Normalized ws ns →
+    inShape u (List.replicate ns.length 2) →
+    boxSum (ns.map (· + 1)) (fun j => if sobolSuppL j = u then extW ws j * G j else 0)
+      = boxSum ns (fun x => prodW ws x * G (embedL u x)) := by
+  intro ws
+  induction ws with
+  | nil =>
+    intro ns u G h hu
+    cases ns with
+    | nil =>
+      cases u with
+      | nil => simp [boxSum, sobolSuppL, extW, prodW, embedL]
+      | cons _ _ => simp [inShape] at hu
+    | cons _ _ => simp [Normalized] at h
+  | cons w ws ih =>
+    intro ns u G h hu
+    cases ns with
+    | nil => simp [Normalized] at h
+    | cons n ns =>
+      obtain ⟨hw, hrest⟩ := h
+      cases u with
+      | nil => simp [inShape] at hu
+      | cons b u =>
+        obtain ⟨hb, hu'⟩ := hu
+        simp only [List.map_cons, boxSum, sumTo_eq, sobolSuppL_cons, extW, prodW, embedL, List.cons.injEq]
+        -- every slice of the left side, by the induction hypothesis
+        have eL : ∀ i ∈ range (n + 1),
+            boxSum (ns.map (· + 1)) (fun js => if (if i = 0 then 0 else 1) = b ∧ sobolSuppL js = u then
+                (if i = 0 then 1 else w (i - 1)) * extW ws js * G (i :: js) else 0)
+              = if (if i = 0 then 0 else 1) = b then (if i = 0 then 1 else w (i - 1)) *
+                  boxSum ns (fun xs => prodW ws xs * G (i :: embedL u xs)) else 0 := by
+          intro i _
+          by_cases hi : (if i = 0 then 0 else 1) = b
+          · simp only [hi, true_and, if_true]
+            rw [← ih ns u (fun js => G (i :: js)) hrest hu', ← boxSum_mul_left]
+            apply boxSum_congr; intro js
+            split <;> ring
+          · simp only [hi, false_and, if_false]
+            rw [boxSum_const]; simp
+        rw [Finset.sum_congr rfl eL]
+        have hb2 : b = 0 ∨ b = 1 := by omega
+        rcases hb2 with rfl | rfl
+        · -- the variable is integrated out: only index 0, and the weights sum to 1
+          rw [Finset.sum_eq_single 0]
+          · simp only [if_true, one_mul]
+            have eR : ∀ x ∈ range n, boxSum ns (fun xs => w x * prodW ws xs * G (0 :: embedL u xs))
+                = w x * boxSum ns (fun xs => prodW ws xs * G (0 :: embedL u xs)) := by
+              intro x _; rw [← boxSum_mul_left]; apply boxSum_congr; intro xs; ring
+            rw [Finset.sum_congr rfl eR, ← Finset.sum_mul, hw, one_mul]
+          · intro i _ hi; simp [hi]
+          · intro hh; exact absurd (Finset.mem_range.mpr (Nat.succ_pos n)) hh
+        · -- the variable is present: index x + 1 carries weight w x
+          rw [Finset.sum_range_succ']
+          simp only [Nat.add_one_ne_zero, if_false, if_true, Nat.add_sub_cancel, zero_ne_one, add_zero]
+          apply Finset.sum_congr rfl; intro x _
+          rw [← boxSum_mul_left]; apply boxSum_congr; intro xs; ring
+
+theorem suppL_zero (k : Nat) : sobolSuppL (List.replicate k 0) = List.replicate k 0 := by
+  induction k with
+  | zero => rfl
+  | succ k ih => simp [List.replicate_succ, sobolSuppL_cons, ih]
+
+theorem suppL_length (j : List Nat) : (sobolSuppL j).length = j.length := by simp [sobolSuppL]
+
+theorem suppL_eq_zero (j : List Nat) (h : sobolSuppL j = List.replicate j.length 0) : j = List.replicate j.length 0 := by
+  induction j with
+  | nil => rfl
+  | cons i is ih =>
+    simp only [sobolSuppL_cons, List.length_cons, List.replicate_succ, List.cons.injEq] at h ⊢
+    refine ⟨?_, ih h.2⟩
+    by_contra hi; simp [hi] at h
+
+/-- the empty tuple has no variance component (the mean is removed) -/
+theorem varcomp_empty (ws : List (Nat → R)) (ns : List Nat) (f : List Nat → R) :
+    varcomp ws ns f (List.replicate ns.length 0) = 0 := by
+  unfold varcomp
+  refine Eq.trans (boxSum_congr_in _ _ (fun _ => 0) ?_) (by rw [boxSum_const]; simp)
+  intro j hj
+  have hjl : j.length = ns.length := by have := inShape_length j _ hj; simpa using this
+  by_cases h : sobolSuppL j = List.replicate ns.length 0
+  · have := suppL_eq_zero j (by rw [hjl]; exact h)
+    simp only [h, if_true, varTerm]
+    rw [if_pos (by rw [← hjl]; exact this)]
+  · simp [h]
+
+/-- **the variance component of a non-empty tuple is the variance of its ANOVA term**: the second moment, under the
+    product of the marginals, of the term `x ↦ a[embed u x]` (which has mean zero, `C10.anova_centered`) -/
+theorem varcomp_eq_term_variance (ws : List (Nat → R)) (ns u : List Nat) (f : List Nat → R) (h : Normalized ws ns)
+    (hu : inShape u (List.replicate ns.length 2)) (hne : u ≠ List.replicate ns.length 0) :
+    varcomp ws ns f u = boxSum ns (fun x => prodW ws x * anovaArr ws ns f (embedL u x) ^ 2) := by
+  rw [← boxSum_support_eq ws ns u (fun j => anovaArr ws ns f j ^ 2) h hu]
+  unfold varcomp
+  apply boxSum_congr; intro j
+  by_cases hs : sobolSuppL j = u
+  · simp only [hs, if_true, varTerm]
+    rw [if_neg]
+    intro hj
+    apply hne
+    rw [← hs, hj, suppL_zero]
+  · simp [hs]
+
+end termvar
+
+/-! ### dimension distribution and mean dimension, as functions of the variance components -/
+section dimension
+variable [Field R]
+
+/-- entry `k` of the **dimension distribution**: the variance components of the tuples with exactly `k` variables,
+    divided by the total variance -/
+def dimDist (ws : List (Nat → R)) (ns : List Nat) (f : List Nat → R) (k : Nat) : R :=
+  boxSum (List.replicate ns.length 2) (fun u => if u.sum = k then varcomp ws ns f u else 0) / sobolDen ws ns f
+
+/-- the **mean dimension**: the tuple-size-weighted sum of the variance components divided by the total variance -/
+def meanDim (ws : List (Nat → R)) (ns : List Nat) (f : List Nat → R) : R :=
+  boxSum (List.replicate ns.length 2) (fun u => (u.sum : R) * varcomp ws ns f u) / sobolDen ws ns f
+
+theorem sum_le_of_inBox : ∀ (k : Nat) (u : List Nat), inShape u (List.replicate k 2) → u.sum ≤ k := by
+  intro k
+  induction k with
+  | zero => intro u h; cases u with
+    | nil => simp
+    | cons _ _ => simp [inShape] at h
+  | succ k ih =>
+    intro u h
+    cases u with
+    | nil => simp [inShape] at h
+    | cons b u =>
+      obtain ⟨hb, hu⟩ := h
+      have := ih u hu
+      simp only [List.sum_cons]; omega
+
+theorem eq_zero_of_sum_zero : ∀ (u : List Nat), u.sum = 0 → u = List.replicate u.length 0 := by
+  intro u
+  induction u with
+  | nil => intro _; rfl
+  | cons b u ih =>
+    intro h
+    simp only [List.sum_cons] at h
+    have hb : b = 0 := by omega
+    have hu : u.sum = 0 := by omega
+    simp only [List.length_cons, List.replicate_succ, List.cons.injEq]
+    exact ⟨hb, ih hu⟩
+
+/-- inside the 2-symbol box, splitting by tuple size `1..N` loses nothing (the empty tuple has no variance) -/
+theorem sum_by_size (ws : List (Nat → R)) (ns : List Nat) (f : List Nat → R) (c : Nat → R) (u : List Nat)
+    (hu : inShape u (List.replicate ns.length 2)) :
+    (∑ k ∈ range ns.length, c (k + 1) * (if u.sum = k + 1 then varcomp ws ns f u else 0))
+      = c u.sum * varcomp ws ns f u := by
+  have hle := sum_le_of_inBox ns.length u hu
+  have hul : u.length = ns.length := by have := inShape_length u _ hu; simpa using this
+  by_cases h0 : u.sum = 0
+  · have hz : u = List.replicate ns.length 0 := by rw [← hul]; exact eq_zero_of_sum_zero u h0
+    rw [hz, varcomp_empty]; simp
+  · rw [Finset.sum_eq_single (u.sum - 1)]
+    · have : u.sum - 1 + 1 = u.sum := by omega
+      simp [this]
+    · intro k _ hk
+      have : ¬ u.sum = k + 1 := by omega
+      simp [this]
+    · intro hh; exact absurd (Finset.mem_range.mpr (by omega)) hh
+
+/-- **the dimension distribution sums to 1** (entries `1..N`; total variance not zero) -/
+theorem dimDist_sum (ws : List (Nat → R)) (ns : List Nat) (f : List Nat → R) (hD : sobolDen ws ns f ≠ 0) :
+    (∑ k ∈ range ns.length, dimDist ws ns f (k + 1)) = 1 := by
+  unfold dimDist
+  simp only [div_eq_mul_inv]
+  rw [← Finset.sum_mul, ← boxSum_sum]
+  have e : boxSum (List.replicate ns.length 2)
+      (fun u => ∑ k ∈ range ns.length, if u.sum = k + 1 then varcomp ws ns f u else 0)
+      = boxSum (List.replicate ns.length 2) (varcomp ws ns f) := by
+    apply boxSum_congr_in; intro u hu
+    have := sum_by_size ws ns f (fun _ => 1) u hu
+    simpa using this
+  rw [e, ← sobolDen_subsets, mul_inv_cancel₀ hD]
+
+/-- **the mean dimension is `Σ_k k · dist(k)`**: the tuple-size-weighted sum of the normalised variance components
+    equals the expectation of the dimension distribution -/
+theorem meanDim_eq (ws : List (Nat → R)) (ns : List Nat) (f : List Nat → R) :
+    meanDim ws ns f = ∑ k ∈ range ns.length, ((k + 1 : Nat) : R) * dimDist ws ns f (k + 1) := by
+  unfold meanDim dimDist
+  have e1 : ∀ k ∈ range ns.length, ((k + 1 : Nat) : R) *
+      (boxSum (List.replicate ns.length 2) (fun u => if u.sum = k + 1 then varcomp ws ns f u else 0) / sobolDen ws ns f)
+      = boxSum (List.replicate ns.length 2) (fun u => ((k + 1 : Nat) : R) * (if u.sum = k + 1 then varcomp ws ns f u else 0))
+        / sobolDen ws ns f := by
+    intro k _; rw [boxSum_mul_left, mul_div_assoc]
+  rw [Finset.sum_congr rfl e1]
+  simp only [div_eq_mul_inv]
+  rw [← Finset.sum_mul, ← boxSum_sum]
+  congr 1
+  apply boxSum_congr_in; intro u hu
+  exact (sum_by_size ws ns f (fun k => (k : R)) u hu).symm
+
+end dimension
+
+section dimension_ordered
+variable [Field R] [LinearOrder R] [IsStrictOrderedRing R]
+
+theorem varcomp_nonneg (ws : List (Nat → R)) (ns : List Nat) (f : List Nat → R) (u : List Nat) (hw : NonnegOn ws ns) :
+    0 ≤ varcomp ws ns f u := by
+  unfold varcomp
+  apply sobol_boxSum_nonneg_in; intro j hj
+  split
+  · exact varTerm_nonneg ws ns f j hw hj
+  · exact le_refl 0
+
+/-- **the mean dimension is at least 1** (non-negative marginals, positive total variance): every tuple that carries
+    variance has at least one variable -/
+theorem meanDim_ge_one (ws : List (Nat → R)) (ns : List Nat) (f : List Nat → R) (hw : NonnegOn ws ns)
+    (hD : 0 < sobolDen ws ns f) : 1 ≤ meanDim ws ns f := by
+  unfold meanDim
+  rw [one_le_div hD, sobolDen_subsets]
+  apply sobol_boxSum_le_in; intro u hu
+  have hul : u.length = ns.length := by have := inShape_length u _ hu; simpa using this
+  by_cases h0 : u.sum = 0
+  · have hz : u = List.replicate ns.length 0 := by rw [← hul]; exact eq_zero_of_sum_zero u h0
+    rw [hz, varcomp_empty]; simp
+  · have h1 : (1 : R) ≤ (u.sum : R) := by exact_mod_cast (Nat.one_le_iff_ne_zero.mpr h0)
+    have := mul_le_mul_of_nonneg_right h1 (varcomp_nonneg ws ns f u hw)
+    simpa using this
+
+end dimension_ordered
+
+section code_dimension
+variable [Field R]
+
+/-- **`tn.mean_dimension(t, marginals)`** (model `Tensor.meanDimension`: `sobol` with the mask `tn.weight(N)`) returns
+    the tuple-size-weighted sum of the variance components divided by the total variance, `Σ_u |u|·D_u / Σ_u D_u`
+    — by `meanDim_eq` this is `Σ_k k·dist(k)`, by `meanDim_ge_one` it is at least 1 -/
+theorem mean_dimension_eq (t : Tensor R) (margs : List (Option (Nat → R))) (ρ sgn : R) (ht : t.WF)
+    (hl : margs.length = t.length)
+    (hc : sgn * ρ ^ t.length = boxSum t.shape (fun x => prodW (margsN t.shape margs) x * t.dense x)) :
+    t.meanDimension margs ρ sgn = .ok (meanDim (margsN t.shape margs) t.shape t.dense) := by
+  have hN : 0 < t.length := by
+    cases t with
+    | nil => simp [Tensor.WF] at ht
+    | cons _ _ => simp
+  obtain ⟨w1, w2, w3⟩ := sobol_weightT_spec (R := R) 2 t.length hN
+  unfold Tensor.meanDimension
+  rw [sobol_eq_subsets t _ margs true ρ sgn ρ sgn ht w1 hl w2 w3 hc]
+  simp only [if_true]
+  unfold meanDim
+  rw [sobolDen_subsets, shape_length]
+  congr 2
+  apply boxSum_congr_in; intro u hu
+  have hul : u.length = t.length := by have := inShape_length u _ hu; simpa using this
+  rw [C16.weight_dense 2 t.length u hN hul, sobol_natCast'_eq]
+
+/-- **the Sobol index of the mask `tn.weight_mask(N, k)`** (exactly `k` variables) is entry `k` of the dimension
+    distribution: the normalised variance of all ANOVA terms of order `k` -/
+theorem sobol_weight_mask (t : Tensor R) (margs : List (Option (Nat → R))) (k r : Nat) (hk : k < r) (ρ sgn ρ2 sgn2 : R)
+    (ht : t.WF) (hl : margs.length = t.length)
+    (hc : sgn * ρ ^ t.length = boxSum t.shape (fun x => prodW (margsN t.shape margs) x * t.dense x)) :
+    t.sobol (weightMask [k] r (List.replicate t.length 2)) margs true ρ sgn ρ2 sgn2
+      = .ok (.inr (dimDist (margsN t.shape margs) t.shape t.dense k)) := by
+  have hN : 0 < t.length := by
+    cases t with
+    | nil => simp [Tensor.WF] at ht
+    | cons _ _ => simp
+  have hne : List.replicate t.length 2 ≠ [] := by
+    intro h; rw [List.replicate_eq_nil_iff] at h; omega
+  obtain ⟨w1, w2⟩ := weightMask_wf_shape (R := R) [k] r (List.replicate t.length 2) hne
+  rw [sobol_eq_subsets t _ margs true ρ sgn ρ2 sgn2 ht w1 hl w2 (sobol_weightMask_closed _ _ _) hc]
+  simp only [if_true]
+  unfold dimDist
+  rw [sobolDen_subsets, shape_length]
+  have e : boxSum (List.replicate t.length 2) (fun u => (weightMask (R := R) [k] r (List.replicate t.length 2)).dense u *
+        varcomp (margsN t.shape margs) t.shape t.dense u)
+      = boxSum (List.replicate t.length 2) (fun u => if u.sum = k then varcomp (margsN t.shape margs) t.shape t.dense u else 0) := by
+    apply boxSum_congr_in; intro u hu
+    have hul : u.length = (List.replicate t.length 2).length := by have := inShape_length u _ hu; simpa using this
+    rw [C16.weightMask_dense [k] r (by simpa using hk) _ u hne hul, C16.countW_nodup [k] (by simp)]
+    by_cases h : u.sum = k <;> simp [h]
+  rw [e]
+
+end code_dimension
+
+/-! ### masks with an open trailing bond: `dimension_distribution` as the code computes it -/
+section openbond
+variable [Field R]
+
+/-- **`tn.sobol` with a mask that keeps an open trailing bond** (one-hot masks, anova.py:149-155): the routine does not
+    fail and returns a one-mode tensor with one entry per position `k` of the bond; entry `k` is the Sobol index
+    (resp. its numerator, for `normalize=False`) of the mask "position `k` of the bond" (`sobolOpenVal mask · k`).
+    Kernel contracts: `sgn·ρ^N` is the weighted mean; for `normalize=True`, `sgn2·ρ2^1 = 1/D` (the scalar the
+    one-mode tensor is multiplied with, `D` the total variance). -/
+theorem sobol_open_eq (t mask : Tensor R) (margs : List (Option (Nat → R))) (normalize : Bool) (ρ sgn ρ2 sgn2 : R)
+    (ht : t.WF) (hk : mask.WF) (hl : margs.length = t.length) (hkl : mask.length = t.length)
+    (hopen : mask.sobolOpenBond = true)
+    (hc : sgn * ρ ^ t.length = boxSum t.shape (fun x => prodW (margsN t.shape margs) x * t.dense x))
+    (hc2 : normalize = true → sgn2 * ρ2 ^ 1 = 1 / sobolDen (margsN t.shape margs) t.shape t.dense) :
+    ∃ v : Tensor R, t.sobol mask margs normalize ρ sgn ρ2 sgn2 = .ok (.inl v) ∧ v.shape = [sobolLastRR mask] ∧
+      ∀ k, k < sobolLastRR mask → v.dense [k] =
+        if normalize then
+          sobolNum (margsN t.shape margs) t.shape t.dense (fun j => sobolOpenVal mask (sobolClampL mask.shape j) k)
+            / sobolDen (margsN t.shape margs) t.shape t.dense
+        else sobolNum (margsN t.shape margs) t.shape t.dense (fun j => sobolOpenVal mask (sobolClampL mask.shape j) k) := by
+  have hwl : (margsN t.shape margs).length = t.shape.length := margsN_length _ _ (by rw [shape_length]; exact hl)
+  have hc' : sgn * ρ ^ t.length = anovaArr (margsN t.shape margs) t.shape t.dense (List.replicate t.length 0) := by
+    rw [hc, ← shape_length t]; exact (anova_mean _ _ _ hwl).symm
+  obtain ⟨a, ha, haw, has, had, halr⟩ := sobolA_spec t margs ρ sgn ht hl hc'
+  have hal : a.length = t.length := by
+    have := congrArg List.length has; simpa [Tensor.shape] using this
+  have hane : a ≠ [] := by intro h; rw [h] at haw; simp [Tensor.WF] at haw
+  have hkne : mask ≠ [] := by intro h; rw [h] at hk; simp [Tensor.WF] at hk
+  have hwl' : (margsN t.shape margs).length = a.length := by rw [hwl, shape_length, hal]
+  have hamw := sobol_WF_wrowsAll a _ hwl' haw
+  have hams := sobol_shape_wrowsAll a _ hwl'
+  have hml : a.shape.length = mask.length := by rw [shape_length, hal, hkl]
+  have hmw := sobol_WF_maskSel mask a.shape hml hk
+  have hms := sobol_shape_maskSel mask a.shape hml
+  obtain ⟨hmmw, hmms⟩ := C02.mul_wf_shape (sobolWrowsAll (margsN t.shape margs) a) (Tensor.sobolMaskSel a.shape mask) hamw hmw
+    (by rw [hams, hms])
+  have hamr : sobolLastRR (sobolWrowsAll (margsN t.shape margs) a) = 1 := by rw [sobol_lastRR_wrowsAll a _ hwl' hane]; exact halr
+  have hmr : sobolLastRR (Tensor.sobolMaskSel a.shape mask) = sobolLastRR mask := sobol_lastRR_maskSel mask a.shape hml hkne
+  have hmml : a.length = ((sobolWrowsAll (margsN t.shape margs) a).mul (Tensor.sobolMaskSel a.shape mask)).length := by
+    have := congrArg List.length hmms; rw [hams, shape_length, shape_length] at this; exact this.symm
+  -- the one-mode tensor
+  have hlast : sobolLastRR ((sobolWrowsAll (margsN t.shape margs) a).mul (Tensor.sobolMaskSel a.shape mask)) = sobolLastRR mask := by
+    cases hmm : (sobolWrowsAll (margsN t.shape margs) a).mul (Tensor.sobolMaskSel a.shape mask) with
+    | nil => rw [hmm] at hmmw; simp [Tensor.WF] at hmmw
+    | cons y ys =>
+      cases hmk : Tensor.sobolMaskSel a.shape mask with
+      | nil => rw [hmk] at hmw; simp [Tensor.WF] at hmw
+      | cons z zs =>
+        cases ham : sobolWrowsAll (margsN t.shape margs) a with
+        | nil => rw [ham] at hamw; simp [Tensor.WF] at hamw
+        | cons w ws =>
+          rw [← hmr, hmk, ← sobol_outRank_lastRR y ys y.core.rl, ← sobol_outRank_lastRR z zs z.core.rl, ← hmm, ham, hmk]
+          have hzok := Tensor.WFfrom_ok _ _ (by rw [hmk] at hmw; exact hmw)
+          have hzip := sobol_mul_eq_zip (w :: ws) (z :: zs) (by rw [← ham, ← hmk, hams, hms])
+          have hmodes := modes_zipWith_mulMode (w :: ws) (z :: zs) hzok
+          rw [hzip, hmodes]
+          have hy : y.core.rl = w.core.rl * z.core.rl := by
+            have : y = mulMode w z := by
+              have h := hmm; rw [ham, hmk, hzip] at h
+              simp only [List.zipWith_cons_cons, List.cons.injEq] at h; exact h.1.symm
+            rw [this]; exact mulMode_rl w z (hzok z (by simp))
+          rw [hy, sobol_outRank_mul _ _ _ _ (compat_modes _ _ (by rw [← ham, ← hmk, hams, hms])),
+            sobol_outRank_lastRR, sobol_outRank_lastRR, ← ham, hamr, one_mul]
+  obtain ⟨c, hform, hcs⟩ := sobol_dotOpen_form a ((sobolWrowsAll (margsN t.shape margs) a).mul (Tensor.sobolMaskSel a.shape mask))
+    (sobolLastRR ((sobolWrowsAll (margsN t.shape margs) a).mul (Tensor.sobolMaskSel a.shape mask))) haw hmml
+  have hvw : Tensor.WF [({ core := c, U := Option.none } : TMode R)] := ⟨rfl, trivial, trivial⟩
+  have hvs : Tensor.shape [({ core := c, U := Option.none } : TMode R)] = [sobolLastRR mask] := by
+    show [c.spatial] = [sobolLastRR mask]
+    rw [hcs, hlast]
+  have hval : ∀ k, k < sobolLastRR mask →
+      Tensor.dense [({ core := c, U := Option.none } : TMode R)] [k]
+        = sobolNum (margsN t.shape margs) t.shape t.dense (fun j => sobolOpenVal mask (sobolClampL mask.shape j) k) := by
+    intro k hk'
+    rw [← hform, sobol_dotOpen_mul a _ _ haw hamw hmw hams.symm (by rw [hams, hms]) hmmw hmms hamr k (by rw [hmr]; exact hk'),
+      has]
+    unfold sobolNum
+    apply boxSum_congr_in; intro j hj
+    have hjl : j.length = t.length := by
+      have := inShape_length j _ hj; simpa [shape_length] using this
+    rw [sobol_dense_wrowsAll a _ j hwl' (by rw [hjl, hal]),
+      sobol_openVal_maskSel mask _ j k (by rw [← has]; exact hml) (by rw [hjl, hkl]), had j hjl, sobolExtW_eq]
+    unfold varTerm
+    rw [shape_length]
+    by_cases h : j = List.replicate t.length 0
+    · rw [if_pos h, if_pos h]; ring
+    · rw [if_neg h, if_neg h]; ring
+  cases normalize with
+  | false =>
+    refine ⟨[{ core := c, U := Option.none }], ?_, hvs, fun k hk' => by rw [hval k hk']; rfl⟩
+    unfold Tensor.sobol
+    rw [ha]
+    simp only [hopen, if_true, sobol_memo_eq, Tensor.clone, Tensor.sobolMaskBy, sobolWeight_eq, hams, hform]
+    rfl
+  | true =>
+    refine ⟨Tensor.scalarMul ρ2 sgn2 [{ core := c, U := Option.none }], ?_, ?_, ?_⟩
+    · unfold Tensor.sobol
+      rw [ha]
+      simp only [hopen, if_true, sobol_memo_eq, Tensor.clone, Tensor.sobolMaskBy, sobolWeight_eq, hams, hform]
+    · rw [(C02.scalarMul_wf_shape ρ2 sgn2 _ hvw).2, hvs]
+    · intro k hk'
+      rw [C02.scalarMul_dense ρ2 sgn2 _ _ hvw (hc2 rfl) [k] rfl, hval k hk']
+      simp only [if_true]
+      ring
+
+
+theorem openVal_oneHot (r N : Nat) (hN : 0 < N) (u : List Nat) (hu : u.length = N) (k : Nat) (hk : k < r) :
+    sobolOpenVal (weightOneHot (R := R) r (List.replicate N 2)) u k = if k = u.sum then 1 else 0 := by
+  match N, hN, u, hu with
+  | n + 1, _, s :: is, hu =>
+    have := C16.oneHot_spec (R := R) r 2 (List.replicate n 2) s is k (by simpa using hu) hk
+    simp only [List.replicate_succ, sobolOpenVal, weightOneHot, Core.tt_rl, Finset.sum_range_one, List.sum_cons] at this ⊢
+    exact this
+
+/-- **`tn.dimension_distribution(t, order, marginals)`** (model `Tensor.dimensionDistribution`: `sobol` with the one-hot
+    mask `tn.weight_one_hot(N, order+1)`, entries `1..order` of the returned one-mode tensor): entry `k` is the sum of
+    the variance components of the tuples with exactly `k` variables divided by the total variance (`dimDist`);
+    with `order = N` the entries sum to 1 (`dimDist_sum`). -/
+theorem dimension_distribution_eq (t : Tensor R) (order : Nat) (margs : List (Option (Nat → R))) (ρ sgn ρ2 sgn2 : R)
+    (ht : t.WF) (hl : margs.length = t.length) (ho : 1 ≤ order)
+    (hc : sgn * ρ ^ t.length = boxSum t.shape (fun x => prodW (margsN t.shape margs) x * t.dense x))
+    (hc2 : sgn2 * ρ2 ^ 1 = 1 / sobolDen (margsN t.shape margs) t.shape t.dense) :
+    t.dimensionDistribution order margs ρ sgn ρ2 sgn2
+      = .ok ((List.range order).map fun k => dimDist (margsN t.shape margs) t.shape t.dense (k + 1)) := by
+  have hN : 0 < t.length := by
+    cases t with
+    | nil => simp [Tensor.WF] at ht
+    | cons _ _ => simp
+  have hne : List.replicate t.length 2 ≠ [] := by
+    intro h; rw [List.replicate_eq_nil_iff] at h; omega
+  obtain ⟨w1, w2, w3, w4⟩ := sobol_weightOneHot_spec (R := R) (order + 1) (List.replicate t.length 2) hne
+  have hkl : (weightOneHot (R := R) (order + 1) (List.replicate t.length 2)).length = t.length := by
+    have := congrArg List.length w2; simpa [Tensor.shape] using this
+  have hlr : sobolLastRR (weightOneHot (R := R) (order + 1) (List.replicate t.length 2)) = order + 1 := by
+    cases hm : weightOneHot (R := R) (order + 1) (List.replicate t.length 2) with
+    | nil => rw [hm] at w1; simp [Tensor.WF] at w1
+    | cons m ms =>
+      have hm1 : m.core.rl = 1 := by
+        cases hr : List.replicate t.length 2 with
+        | nil => exact absurd hr hne
+        | cons x xs => rw [hr] at hm; simp only [weightOneHot, List.cons.injEq] at hm; rw [← hm.1]; rfl
+      rw [← sobol_outRank_lastRR m ms 1, ← hm]; exact w3
+  obtain ⟨v, hv, _, hvd⟩ := sobol_open_eq t _ margs true ρ sgn ρ2 sgn2 ht w1 hl hkl (w4 (by omega)) hc (fun _ => hc2)
+  unfold Tensor.dimensionDistribution
+  rw [hv]
+  simp only
+  congr 1
+  apply List.map_congr_left; intro k hk
+  have hk' : k + 1 < order + 1 := by have := List.mem_range.mp hk; omega
+  rw [hvd (k + 1) (by rw [hlr]; exact hk')]
+  simp only [if_true]
+  unfold dimDist
+  congr 1
+  have e : sobolNum (margsN t.shape margs) t.shape t.dense
+        (fun j => sobolOpenVal (weightOneHot (R := R) (order + 1) (List.replicate t.length 2))
+          (sobolClampL (weightOneHot (R := R) (order + 1) (List.replicate t.length 2)).shape j) (k + 1))
+      = sobolNum (margsN t.shape margs) t.shape t.dense (fun j => (fun u => if u.sum = k + 1 then (1 : R) else 0) (sobolSuppL j)) := by
+    unfold sobolNum
+    apply boxSum_congr_in; intro j hj
+    have hjl : j.length = t.length := by
+      have := inShape_length j _ hj; simpa [shape_length] using this
+    simp only [w2, clampL_two t.length j hjl]
+    rw [openVal_oneHot (order + 1) t.length hN (sobolSuppL j) (by rw [suppL_length, hjl]) (k + 1) hk']
+    by_cases h : k + 1 = (sobolSuppL j).sum
+    · simp [h]
+    · have h' : ¬ (sobolSuppL j).sum = k + 1 := fun hh => h hh.symm
+      simp [h, h']
+  rw [e, sobolNum_subsets _ _ _ (fun u => if u.sum = k + 1 then (1 : R) else 0)]
+  apply boxSum_congr; intro u
+  split <;> simp
+
+end openbond
+
+/-! ### the consequences, at the level of what the routines return -/
+section tensor_level
+variable [Field R] [LinearOrder R] [IsStrictOrderedRing R]
+
+theorem suppL_inBox : ∀ (ns j : List Nat), inShape j (ns.map (· + 1)) → inShape (sobolSuppL j) (List.replicate ns.length 2) := by
+  intro ns
+  induction ns with
+  | nil => intro j h; cases j with
+    | nil => trivial
+    | cons _ _ => simp [inShape] at h
+  | cons n ns ih =>
+    intro j h
+    cases j with
+    | nil => simp [inShape] at h
+    | cons i is =>
+      refine ⟨?_, ih is h.2⟩
+      show (if i = 0 then 0 else 1) < 2
+      split <;> omega
+
+/-- **a Sobol index of a mask over the 2-symbol box with values in `[0,1]` (0/1 masks: Boolean formulas, `tn.only`,
+    weight masks) lies in `[0,1]`**, for non-negative marginals and positive total variance: what `tn.sobol` returns -/
+theorem sobol_unit_interval (t mask : Tensor R) (margs : List (Option (Nat → R))) (ρ sgn ρ2 sgn2 : R)
+    (ht : t.WF) (hk : mask.WF) (hl : margs.length = t.length) (hks : mask.shape = List.replicate t.length 2)
+    (hclosed : mask.sobolOpenBond = false)
+    (hc : sgn * ρ ^ t.length = boxSum t.shape (fun x => prodW (margsN t.shape margs) x * t.dense x))
+    (hw : MargsNonneg t.shape margs)
+    (hm : ∀ u, inShape u (List.replicate t.length 2) → 0 ≤ mask.dense u ∧ mask.dense u ≤ 1)
+    (hD : 0 < sobolDen (margsN t.shape margs) t.shape t.dense) :
+    ∃ x, t.sobol mask margs true ρ sgn ρ2 sgn2 = .ok (.inr x) ∧ 0 ≤ x ∧ x ≤ 1 := by
+  have hkl : mask.length = t.length := by
+    have := congrArg List.length hks; simpa [Tensor.shape] using this
+  refine ⟨_, sobol_eq t mask margs true ρ sgn ρ2 sgn2 ht hk hl hkl hclosed hc, ?_⟩
+  simp only [if_true]
+  apply sobol_mem_unit _ _ _ _ (margsN_nonneg _ _ hw) _ hD
+  intro j hj
+  have hjl : j.length = t.length := by
+    have := inShape_length j _ hj; simpa [shape_length] using this
+  rw [hks, clampL_two t.length j hjl]
+  have := suppL_inBox t.shape j hj
+  rw [shape_length] at this
+  exact hm _ this
+
+/-- **monotonicity of `tn.sobol` in the mask** (masks over the 2-symbol box): `mask₁ ≤ mask₂` entry-wise implies
+    `sobol(mask₁) ≤ sobol(mask₂)` — closed ≤ total indices, a total index dominates every variance component whose
+    tuple contains the variable -/
+theorem sobol_monotone (t m1 m2 : Tensor R) (margs : List (Option (Nat → R))) (ρ sgn ρ2 sgn2 : R)
+    (ht : t.WF) (hk1 : m1.WF) (hk2 : m2.WF) (hl : margs.length = t.length)
+    (hs1 : m1.shape = List.replicate t.length 2) (hs2 : m2.shape = List.replicate t.length 2)
+    (hc1 : m1.sobolOpenBond = false) (hc2 : m2.sobolOpenBond = false)
+    (hc : sgn * ρ ^ t.length = boxSum t.shape (fun x => prodW (margsN t.shape margs) x * t.dense x))
+    (hw : MargsNonneg t.shape margs)
+    (hm : ∀ u, inShape u (List.replicate t.length 2) → m1.dense u ≤ m2.dense u) :
+    ∃ x1 x2, t.sobol m1 margs true ρ sgn ρ2 sgn2 = .ok (.inr x1) ∧ t.sobol m2 margs true ρ sgn ρ2 sgn2 = .ok (.inr x2) ∧
+      x1 ≤ x2 := by
+  have hkl1 : m1.length = t.length := by
+    have := congrArg List.length hs1; simpa [Tensor.shape] using this
+  have hkl2 : m2.length = t.length := by
+    have := congrArg List.length hs2; simpa [Tensor.shape] using this
+  refine ⟨_, _, sobol_eq t m1 margs true ρ sgn ρ2 sgn2 ht hk1 hl hkl1 hc1 hc,
+    sobol_eq t m2 margs true ρ sgn ρ2 sgn2 ht hk2 hl hkl2 hc2 hc, ?_⟩
+  simp only [if_true]
+  apply sobol_mono _ _ _ _ _ (margsN_nonneg _ _ hw)
+  intro j hj
+  have hjl : j.length = t.length := by
+    have := inShape_length j _ hj; simpa [shape_length] using this
+  rw [hs1, hs2, clampL_two t.length j hjl]
+  have := suppL_inBox t.shape j hj
+  rw [shape_length] at this
+  exact hm _ this
+
+/-- **`tn.mean_dimension` is at least 1** (non-negative marginals, positive total variance) -/
+theorem mean_dimension_ge_one (t : Tensor R) (margs : List (Option (Nat → R))) (ρ sgn : R) (ht : t.WF)
+    (hl : margs.length = t.length)
+    (hc : sgn * ρ ^ t.length = boxSum t.shape (fun x => prodW (margsN t.shape margs) x * t.dense x))
+    (hw : MargsNonneg t.shape margs) (hD : 0 < sobolDen (margsN t.shape margs) t.shape t.dense) :
+    ∃ x, t.meanDimension margs ρ sgn = .ok x ∧ 1 ≤ x :=
+  ⟨_, mean_dimension_eq t margs ρ sgn ht hl hc, meanDim_ge_one _ _ _ (margsN_nonneg _ _ hw) hD⟩
+
+end tensor_level
+
+section tensor_level_field
+variable [Field R]
+
+theorem list_sum_map_range (n : Nat) (f : Nat → R) : ((List.range n).map f).sum = ∑ k ∈ range n, f k := by
+  induction n with
+  | zero => simp
+  | succ n ih => rw [List.range_succ, List.map_append, List.sum_append, ih, Finset.sum_range_succ]; simp
+
+/-- **the dimension distribution `tn.dimension_distribution(t)` sums to 1** (all `N` orders, total variance not zero) -/
+theorem dimension_distribution_sum (t : Tensor R) (margs : List (Option (Nat → R))) (ρ sgn ρ2 sgn2 : R)
+    (ht : t.WF) (hl : margs.length = t.length)
+    (hc : sgn * ρ ^ t.length = boxSum t.shape (fun x => prodW (margsN t.shape margs) x * t.dense x))
+    (hc2 : sgn2 * ρ2 ^ 1 = 1 / sobolDen (margsN t.shape margs) t.shape t.dense)
+    (hD : sobolDen (margsN t.shape margs) t.shape t.dense ≠ 0) :
+    ∃ l, t.dimensionDistribution t.length margs ρ sgn ρ2 sgn2 = .ok l ∧ l.length = t.length ∧ l.sum = 1 := by
+  have hN : 1 ≤ t.length := by
+    cases t with
+    | nil => simp [Tensor.WF] at ht
+    | cons _ _ => simp
+  refine ⟨_, dimension_distribution_eq t t.length margs ρ sgn ρ2 sgn2 ht hl hN hc hc2, by simp, ?_⟩
+  rw [list_sum_map_range]
+  have := dimDist_sum (margsN t.shape margs) t.shape t.dense hD
+  rw [shape_length] at this
+  exact this
+
+/-- **the mean dimension is the expectation of the dimension distribution**: what `tn.mean_dimension` returns is
+    `Σ_k k · dist(k)` with `dist` what `tn.dimension_distribution` returns -/
+theorem mean_dimension_eq_sum (t : Tensor R) (margs : List (Option (Nat → R))) (ρ sgn ρ2 sgn2 : R)
+    (ht : t.WF) (hl : margs.length = t.length)
+    (hc : sgn * ρ ^ t.length = boxSum t.shape (fun x => prodW (margsN t.shape margs) x * t.dense x))
+    (hc2 : sgn2 * ρ2 ^ 1 = 1 / sobolDen (margsN t.shape margs) t.shape t.dense) :
+    ∃ x l, t.meanDimension margs ρ sgn = .ok x ∧ t.dimensionDistribution t.length margs ρ sgn ρ2 sgn2 = .ok l ∧
+      x = ∑ k ∈ range t.length, ((k + 1 : Nat) : R) * l.getD k 0 := by
+  have hN : 1 ≤ t.length := by
+    cases t with
+    | nil => simp [Tensor.WF] at ht
+    | cons _ _ => simp
+  refine ⟨_, _, mean_dimension_eq t margs ρ sgn ht hl hc,
+    dimension_distribution_eq t t.length margs ρ sgn ρ2 sgn2 ht hl hN hc hc2, ?_⟩
+  rw [meanDim_eq, shape_length]
+  apply Finset.sum_congr rfl; intro k hk
+  have hk' := Finset.mem_range.mp hk
+  simp [List.getD, hk']
+
+end tensor_level_field
+
+section centred
+variable [Field R]
+
+/-- **every ANOVA term of a non-empty tuple has mean zero** under the product of the marginals — so its second moment
+    (`varcomp_eq_term_variance`) is its variance -/
+theorem term_mean_zero : ∀ (ws : List (Nat → R)) (ns u : List Nat) (f : List Nat → R), Normalized ws ns →
+    inShape u (List.replicate ns.length 2) → u ≠ List.replicate ns.length 0 →
+    boxSum ns (fun x => prodW ws x * anovaArr ws ns f (embedL u x)) = 0 := by
+  intro ws
+  induction ws with
+  | nil =>
+    intro ns u f h hu hne
+    cases ns with
+    | nil =>
+      cases u with
+      | nil => exact absurd rfl hne
+      | cons _ _ => simp [inShape] at hu
+    | cons _ _ => simp [Normalized] at h
+  | cons w ws ih =>
+    intro ns u f h hu hne
+    cases ns with
+    | nil => simp [Normalized] at h
+    | cons n ns =>
+      obtain ⟨hw, hrest⟩ := h
+      cases u with
+      | nil => simp [inShape] at hu
+      | cons b u =>
+        obtain ⟨hb, hu'⟩ := hu
+        simp only [boxSum, sumTo_eq, prodW, embedL, anovaArr, anovaMaps, applyMaps]
+        -- pull the sum over the source index of the first mode out of the box sum
+        have e : ∀ x ∈ range n,
+            boxSum ns (fun xs => w x * prodW ws xs *
+              ∑ k ∈ range n, anovaL n w (if b = 0 then 0 else x + 1) k *
+                applyMaps (anovaMaps ws ns) ns (fun ks => f (k :: ks)) (embedL u xs))
+            = ∑ k ∈ range n, (w x * anovaL n w (if b = 0 then 0 else x + 1) k) *
+                boxSum ns (fun xs => prodW ws xs * anovaArr ws ns (fun ks => f (k :: ks)) (embedL u xs)) := by
+          intro x _
+          have : (fun xs => w x * prodW ws xs *
+              ∑ k ∈ range n, anovaL n w (if b = 0 then 0 else x + 1) k *
+                applyMaps (anovaMaps ws ns) ns (fun ks => f (k :: ks)) (embedL u xs))
+              = (fun xs => ∑ k ∈ range n, (w x * anovaL n w (if b = 0 then 0 else x + 1) k) *
+                  (prodW ws xs * anovaArr ws ns (fun ks => f (k :: ks)) (embedL u xs))) := by
+            funext xs; rw [Finset.mul_sum]; apply Finset.sum_congr rfl; intro k _; ring
+          rw [this, boxSum_sum]
+          apply Finset.sum_congr rfl; intro k _
+          rw [boxSum_mul_left]
+        rw [Finset.sum_congr rfl e]
+        have hb2 : b = 0 ∨ b = 1 := by omega
+        rcases hb2 with rfl | rfl
+        · -- the variable is integrated out: the rest of the tuple is non-empty
+          have hne' : u ≠ List.replicate ns.length 0 := by
+            intro h; apply hne; simp [List.replicate_succ, h]
+          apply Finset.sum_eq_zero; intro x _
+          apply Finset.sum_eq_zero; intro k _
+          rw [ih ns u (fun ks => f (k :: ks)) hrest hu' hne', mul_zero]
+        · -- the variable is present: the centred rows have zero weighted mean
+          rw [Finset.sum_comm]
+          apply Finset.sum_eq_zero; intro k hk
+          simp only [one_ne_zero, if_false]
+          rw [← Finset.sum_mul, C10.anova_centered n w hw k (Finset.mem_range.mp hk), zero_mul]
+
+end centred
+
+/-! ### non-vacuity: the hypotheses of the theorems above hold on a concrete rank-2 tensor over ℚ -/
+section nonvacuous
+/-- `tn.symbols(2)[0]` : "variable 0 is in the tuple" -/
+def exMask : Tensor ℚ :=
+  [ { core := .tt 1 2 1 (fun _ j _ => if j = 0 then 0 else 1), U := Option.none },
+    { core := .tt 1 2 1 (fun _ _ _ => 1), U := Option.none } ]
+/-- `tn.true(2)` -/
+def exMask1 : Tensor ℚ :=
+  [ { core := .tt 1 2 1 (fun _ _ _ => 1), U := Option.none },
+    { core := .tt 1 2 1 (fun _ _ _ => 1), U := Option.none } ]
+/-- a rank-2 function of two variables: `f(x, y) = x·(y+1) + y` on the `2 × 2` grid -/
+def exS : Tensor ℚ :=
+  [ { core := .tt 1 2 2 (fun _ j b => if b = 0 then (j : ℚ) else 1), U := Option.none },
+    { core := .tt 2 2 1 (fun a j _ => if a = 0 then (j : ℚ) + 1 else (j : ℚ)), U := Option.none } ]
+/-- marginals: `(1, 2)` (not normalised) on the first variable, `None` on the second -/
+def exMargs : List (Option (Nat → ℚ)) := [some (fun i => (i : ℚ) + 1), Option.none]
+
+theorem exS_wf : exS.WF := by simp [exS, Tensor.WF, Tensor.WFfrom, TMode.ok, Core.rl, Core.rr]
+theorem exMask_wf : exMask.WF := by simp [exMask, Tensor.WF, Tensor.WFfrom, TMode.ok, Core.rl, Core.rr]
+theorem exMask1_wf : exMask1.WF := by simp [exMask1, Tensor.WF, Tensor.WFfrom, TMode.ok, Core.rl, Core.rr]
+
+theorem exS_shape : exS.shape = [2, 2] := by simp [exS, Tensor.shape, TMode.n, Core.spatial]
+theorem exMargs_sum : MargsSumNe exS.shape exMargs := by
+  rw [exS_shape]; simp [MargsSumNe, exMargs, sobolMargS, sumTo]; norm_num
+theorem exMargs_nonneg : MargsNonneg exS.shape exMargs := by
+  rw [exS_shape]
+  refine ⟨fun i _ => ?_, trivial⟩
+  positivity
+theorem exS_dense (x y : Nat) : exS.dense [x, y] = (x : ℚ) * ((y : ℚ) + 1) + y := by
+  simp [exS, Tensor.dense, dense, tail, Tensor.modes, TMode.toMode, TMode.decomp, Core.get, Core.rl, Core.rr, sumTo]
+theorem exS_var : sobolDen (margsN exS.shape exMargs) exS.shape exS.dense = 5 / 4 := by
+  rw [total_variance _ _ _ (margsN_normalized _ _ (by simp [exMargs, exS_shape]) exMargs_sum), exS_shape]
+  simp [boxSum, sumTo, prodW, margsN, normW, sobolMargS, exMargs, exS_dense]
+  norm_num
+
+/-- the weighted mean of `exS` is `3/2`: the kernel contract `sgn · ρ^N = mean` holds with `ρ = 1`, `sgn = 3/2` -/
+theorem exS_contract : (3 / 2 : ℚ) * 1 ^ exS.length
+    = boxSum exS.shape (fun x => prodW (margsN exS.shape exMargs) x * exS.dense x) := by
+  rw [exS_shape]
+  simp [boxSum, sumTo, prodW, margsN, normW, sobolMargS, exMargs, exS_dense]
+  norm_num
+theorem exMask_dense (a b : Nat) : exMask.dense [a, b] = if a = 0 then 0 else 1 := by
+  simp [exMask, Tensor.dense, dense, tail, Tensor.modes, TMode.toMode, TMode.decomp, Core.get, Core.rl, Core.rr, sumTo]
+theorem exMask1_dense (a b : Nat) : exMask1.dense [a, b] = 1 := by
+  simp [exMask1, Tensor.dense, dense, tail, Tensor.modes, TMode.toMode, TMode.decomp, Core.get, Core.rl, Core.rr, sumTo]
+theorem exBox (u : List Nat) (hu : inShape u (List.replicate exS.length 2)) : ∃ a b, u = [a, b] := by
+  match u, hu with
+  | [a, b], _ => exact ⟨a, b, rfl⟩
+theorem exMask_unit : ∀ u, inShape u (List.replicate exS.length 2) → 0 ≤ exMask.dense u ∧ exMask.dense u ≤ 1 := by
+  intro u hu
+  obtain ⟨a, b, rfl⟩ := exBox u hu
+  rw [exMask_dense]; split <;> norm_num
+theorem exMask_le : ∀ u, inShape u (List.replicate exS.length 2) → exMask.dense u ≤ exMask1.dense u := by
+  intro u hu
+  obtain ⟨a, b, rfl⟩ := exBox u hu
+  rw [exMask_dense, exMask1_dense]; split <;> norm_num
+theorem exS_contract2 : (1 : ℚ) * (4 / 5) ^ 1 = 1 / sobolDen (margsN exS.shape exMargs) exS.shape exS.dense := by
+  rw [exS_var]; norm_num
+
+example := sobol_eq exS exMask exMargs true 1 (3 / 2) 1 1 exS_wf exMask_wf rfl rfl rfl exS_contract
+example := sobol_eq exS exMask exMargs false 1 (3 / 2) 1 1 exS_wf exMask_wf rfl rfl rfl exS_contract
+example := sobol_eq_subsets exS exMask exMargs true 1 (3 / 2) 1 1 exS_wf exMask_wf rfl rfl rfl exS_contract
+example := total_variance _ _ exS.dense (margsN_normalized exS.shape exMargs rfl exMargs_sum)
+example := varcomp_eq_term_variance _ exS.shape [1, 0] exS.dense (margsN_normalized exS.shape exMargs rfl exMargs_sum)
+  (by rw [exS_shape]; simp [inShape]) (by rw [exS_shape]; simp)
+example := term_mean_zero _ exS.shape [1, 0] exS.dense (margsN_normalized exS.shape exMargs rfl exMargs_sum)
+  (by rw [exS_shape]; simp [inShape]) (by rw [exS_shape]; simp)
+example := sobol_unit_interval exS exMask exMargs 1 (3 / 2) 1 1 exS_wf exMask_wf rfl rfl rfl exS_contract exMargs_nonneg
+  exMask_unit (by rw [exS_var]; norm_num)
+example := sobol_monotone exS exMask exMask1 exMargs 1 (3 / 2) 1 1 exS_wf exMask_wf exMask1_wf rfl rfl rfl rfl rfl
+  exS_contract exMargs_nonneg exMask_le
+example := mean_dimension_eq exS exMargs 1 (3 / 2) exS_wf rfl exS_contract
+example := mean_dimension_ge_one exS exMargs 1 (3 / 2) exS_wf rfl exS_contract exMargs_nonneg (by rw [exS_var]; norm_num)
+example := sobol_weight_mask exS exMargs 1 3 (by decide) 1 (3 / 2) 1 1 exS_wf rfl exS_contract
+example := sobol_open_eq exS (weightOneHot 3 [2, 2]) exMargs true 1 (3 / 2) (4 / 5) 1 exS_wf
+  (sobol_weightOneHot_spec 3 [2, 2] (by simp)).1 rfl rfl ((sobol_weightOneHot_spec 3 [2, 2] (by simp)).2.2.2 (by decide))
+  exS_contract (fun _ => exS_contract2)
+example := dimension_distribution_eq exS 2 exMargs 1 (3 / 2) (4 / 5) 1 exS_wf rfl (by decide) exS_contract exS_contract2
+example := dimension_distribution_sum exS exMargs 1 (3 / 2) (4 / 5) 1 exS_wf rfl exS_contract exS_contract2
+  (by rw [exS_var]; norm_num)
+example := mean_dimension_eq_sum exS exMargs 1 (3 / 2) (4 / 5) 1 exS_wf rfl exS_contract exS_contract2
+
+end nonvacuous
 
 end TN.C09
